@@ -37,7 +37,7 @@ COLLOPS = ["NONE", "ADDITION", "SUBTRACTION", "INTERSECTION"]
 ATTRS = [".", "a", "a.b", "a b", "/"]
 TERMS = ["", "a", "1", "a b", "'a", "x/y", "\\", "a.b", '"', "'a'", "/|#@,;:_-", " x", "^a$", "a]", "\\d+/"]
 PARAMS = ["", "a", "a, b", "'x'", "a.b", "a)", "(", "\\"]
-EXPRS = ["a", "a.b", "/a/b", "(a)+(b)", "a[1]", "a b", "&a", "a\\.b", ")"]
+EXPRS = ["a", "a.b", "/a/b", "(a)+(b)", "a[1]", "a b", "&a", "a\\.b", ")", ""]
 INTS = [0, 1, -1, 12, -30, 100]
 SLICES = ["1:2", ":", "-1:", "0:-1", "10:20"]
 ANCHORS = ["a", "a.b", "a b", "/", "'", "1", "", "a=b"]
@@ -97,7 +97,9 @@ def pair_vocab():
         v.append(keyword(bool(i % 2), kw, PARAMS[i % len(PARAMS)]))
     v += [keyword(False, "HAS_CHILD", "a.b"), keyword(True, "MAX", "a)")]
     v += [collector("a", "NONE"), collector("a.b", "ADDITION"), collector("/a/b", "SUBTRACTION"),
-          collector("(a)+(b)", "INTERSECTION"), collector("a[1]", "NONE"), collector(")", "NONE")]
+          collector("(a)+(b)", "INTERSECTION"), collector("a[1]", "NONE"), collector(")", "NONE"),
+          # finding C08-6: an empty collector keeps the anchor-mark position open; "&" operator / "&" expression behind it
+          collector("", "NONE"), collector("b", "INTERSECTION"), collector("&a", "NONE")]
     return v
 
 
@@ -108,7 +110,7 @@ def triple_vocab():
           search(False, "EQUALS", "a", "")]
     v += [keyword(True, "HAS_CHILD", "a.b"), keyword(False, "NAME", "")]
     v += [collector("a.b", "NONE"), collector("/a", "ADDITION"), collector("(a)-(b)", "SUBTRACTION"),
-          collector("a", "INTERSECTION")]
+          collector("a", "INTERSECTION"), collector("", "NONE")]
     return v
 
 
@@ -693,7 +695,9 @@ def _job(job):
 
 CORPUS_TEXTS = ["a\\.b", "/a.b", "a[.=~_x/y_]", "a[.=~/x\\/y/]", "'a\\\\.b'", "\\\\/", "/a\\\\/b", "(a)+(b)-(c)", "/(a)/b", "a[b=\\'c\\']",
                 "a.'-x'", "(a).'-x'", "&a.b", "/&a/b", "a[&b].c", "a['b.c']", "a.*", "a.**.b", "a*b*c", "[.!=x]", "[a >= 1]",
-                "a[has_child(b)]", "a[!name()]", "a[1:2]", "a[-1]", "/", ".", "", " ", "a.", "/a/", "a b.c", "a\\ b.c", "//a", "a..b"]
+                "a[has_child(b)]", "a[!name()]", "a[1:2]", "a[-1]", "/", ".", "", " ", "a.", "/a/", "a b.c", "a\\ b.c", "//a", "a..b",
+                # collectors directly behind a separator / behind empty collectors (finding C08-6)
+                "/()&(b)", "()&(b)", "/()()&(b)", "/(&a)", "x.(&a)", "x/(&a)", "(a).&(b)", "/(a)/&(b)", "a.(b)", "/()", "()"]
 
 
 def run(chk: core.Check):
